@@ -12,6 +12,13 @@
 (*         switch (fallthrough, default positions), try/catch/finally,     *)
 (*         labelled blocks and loops, declarations followed by one use in  *)
 (*         each operand position, typeof guards, optional chains           *)
+(*  "cx"   CONTEXT x OPERAND-KIND pairs: 30 one-hole contexts x every      *)
+(*         operator class as the operand, literal slots over a typed       *)
+(*         table; a covering sample (every pair) + a seeded share of the   *)
+(*         full product                                                    *)
+(*  "xc"   constants bound OUTSIDE the function (another module's const,   *)
+(*         an enum member, a define key) meeting side-effecting operands   *)
+(*         in the same contexts                                            *)
 (*  "rnd"  a SEEDED slice of the expression trees of depth <= Depth over   *)
 (*         all operators: the grammar derivation is driven by a            *)
 (*         Wichmann-Hill generator seeded with (Seed, i)                   *)
